@@ -20,6 +20,11 @@ type c11Scen struct {
 	Ops         []AdminOp   `json:"history"`
 	EveryPrefix bool        `json:"probe_after_every_prefix"`
 	NoTrim      bool        `json:"trim_right_slash_off,omitempty"`
+	// Traffic: requests (indices into the probe list) served by a second task while the history is
+	// applied; their answers are not judged here (C12 does that), but nothing they leave behind may
+	// change what the container answers afterwards
+	Traffic []int `json:"traffic_during_history,omitempty"`
+	Preempt int   `json:"preempt_permille,omitempty"`
 }
 
 var c11Roots = []string{"/a", "/b", "/a/{v}", "/", "/a/", "/a/b", "/ab", "/{v}", "/a/{v}/x", "/a/{v}/y", "/users/{id}/a", "/users/{id}/b"}
@@ -119,6 +124,37 @@ func genC11(x *Ctx) *c11Scen {
 		}
 	})
 	sc.NoTrim = tp.Chance(120)
+	if tp.Chance(300) {
+		probes := c11Probes(sc)
+		np := len(probes)
+		var routeOps []AdminOp
+		for _, o := range sc.Ops {
+			if o.Kind == "route" || o.Kind == "unroute" {
+				routeOps = append(routeOps, o)
+			}
+		}
+		tp.Repeat(2, 10, 800, func(int) {
+			pick := tp.G(np)
+			if len(routeOps) > 0 && tp.Chance(700) {
+				// a request for a route the history adds or removes: the answer it computes is about to change
+				o := routeOps[tp.G(len(routeOps))]
+				sp := sc.Svcs[o.Svc]
+				for _, r := range sp.Routes {
+					if r.ID == o.Route {
+						want := Probe{Method: r.Method, Path: instantiate(FullPath(sp.Root, r.Path), tp.G(2))}
+						for i, p := range probes {
+							if p.Method == want.Method && p.Path == want.Path && p.Accept == "" {
+								pick = i
+								break
+							}
+						}
+					}
+				}
+			}
+			sc.Traffic = append(sc.Traffic, pick)
+		})
+		sc.Preempt = []int{400, 150, 700}[tp.G(3)]
+	}
 	return sc
 }
 
@@ -203,10 +239,14 @@ func runC11(x *Ctx) {
 	var states []RegState
 	st := init
 	compared := 0
+	callerDone := false
 	s.Go("caller", func(t *sim.Task) {
 		for i, op := range sc.Ops {
 			t.Ev("op", op.String(), i)
 			w.Do(op)
+			if i == len(sc.Ops)-1 {
+				callerDone = true
+			}
 			t.Y(sim.SiteAdminPost)
 			if sc.EveryPrefix || i == len(sc.Ops)-1 {
 				for _, p := range probes {
@@ -217,6 +257,18 @@ func runC11(x *Ctx) {
 			}
 		}
 	})
+	if len(sc.Traffic) > 0 {
+		s.Preempt = sc.Preempt
+		s.Go("traffic", func(t *sim.Task) {
+			// the list is repeated until the history is complete (bounded), so that the last operations
+			// have requests in flight too
+			for k := 0; k < 60 && (k < len(sc.Traffic) || !callerDone); k++ {
+				t.Req = 1000 + k
+				ServeProbe(w.C, k%2, probes[sc.Traffic[k%len(sc.Traffic)]], t, 1000+k)
+				t.Y(sim.SiteCheckpoint)
+			}
+		})
+	}
 	for _, op := range sc.Ops {
 		st = st.Apply(op)
 		states = append(states, st)
@@ -255,7 +307,11 @@ func runC11(x *Ctx) {
 		x.Count("reach:history-with-removal")
 	}
 	// the schedule is trivial here; distinctness is over histories
-	x.Res.TraceHash = sim.HashString(opsString(sc.Ops))
+	if len(sc.Traffic) == 0 {
+		x.Res.TraceHash = sim.HashString(opsString(sc.Ops))
+	} else if s.Counts["preemptions"] > 0 {
+		x.Count("reach:traffic-interleaved-with-history")
+	}
 }
 
 func opsString(ops []AdminOp) string {
